@@ -1113,6 +1113,11 @@ def abort_violations(scn, op, before, snap, inv):
     tag = " [signal-arrived-inside-a-destructor]" if in_del else ""
     if inv.deadlock is not None:
         probs.append(("hang-after-interrupt" + tag, {"blocked": inv.deadlock}))
+    elif getattr(inv, "sigdeath", None):
+        # the program itself had put the default disposition back (its command was over, nothing left to
+        # clean up) and the signal ended the process: dying from the signal is the report.  Whatever was
+        # still in flight or got recorded is judged above.
+        pass
     elif inv.internal is not None and inv.internal[0] == "BrokenPipeError" and op.get("stdout_gone_on_signal"):
         # injected: the reader of Conductor's own stdout went away together with the interrupt.  Nothing can
         # be reported there any more; what is demanded above (SIGTERM for everything in flight, nothing
@@ -1137,6 +1142,11 @@ def abort_violations(scn, op, before, snap, inv):
         probs.append(("exit-nonzero-but-not-reported-as-abort" + tag, {"err": err[-300:]}))
     if inv.exit_hang:
         probs.append(("process-exit-blocked-by-unfinished-tee-threads", {}))
+    again = [e for e in inv.trace if e[0] == "sigsent_again"]
+    if again and probs:
+        # the first signal alone is handled correctly at this check point or it is not - either way the second
+        # one is part of the story: name where it landed
+        where = "%s [second-signal-at %s]" % (where, again[0][3])
     return [(what + " window=" + str(where), det) for what, det in probs], True
 
 
